@@ -35,6 +35,8 @@ var intrinsicDocs = map[string]string{
 	"errors.New":                         "errors.New(s): fresh non-nil error of dynamic type *errors.errorString with text s and no wrapped error",
 	"fmt.Errorf":                         "fmt.Errorf(f,args): fresh non-nil error; wraps the %w argument if the constant format has one; text is NUL-free if the format and every string/error/[]byte argument are",
 	"fmt.Sprintf":                        "fmt.Sprintf(f,args): fresh string; NUL-free under the same rule as fmt.Errorf",
+	"strconv.Itoa":                       "strconv.Itoa(n): the decimal text of n (a NUL-free string of 1..20 bytes, a function of n)",
+	"strconv.FormatInt":                  "strconv.FormatInt(n,10): the decimal text of n",
 }
 
 func bufGhost(st *State, name string, id *Term) *Term {
@@ -271,6 +273,21 @@ func init() {
 			}
 			return Value{T: resT, L: []*Term{tag, p}}
 		}
+	}
+	intrinsics["strconv.Itoa"] = func(ex *Exec, fr *Frame, st *State, site ssa.Instruction, args []Value, resT types.Type) Value {
+		id := UF("itoa", SInt, args[0].L[0])
+		st.assume(UF("nulfree", SBool, id))
+		st.assume(And(Le(Int(1), UF("slen", SInt, id)), Le(UF("slen", SInt, id), Int(20))))
+		return Value{T: resT, L: []*Term{id}}
+	}
+	intrinsics["strconv.FormatInt"] = func(ex *Exec, fr *Frame, st *State, site ssa.Instruction, args []Value, resT types.Type) Value {
+		id := ex.freshVar("fmtint", SInt)
+		if args[1].L[0].IsInt() && args[1].L[0].Int.Int64() == 10 {
+			id = UF("itoa", SInt, args[0].L[0])
+		}
+		st.assume(UF("nulfree", SBool, id))
+		st.assume(And(Le(Int(1), UF("slen", SInt, id)), Le(UF("slen", SInt, id), Int(65))))
+		return Value{T: resT, L: []*Term{id}}
 	}
 	intrinsics["fmt.Errorf"] = fmtLike(true)
 	intrinsics["fmt.Sprintf"] = fmtLike(false)
